@@ -28,6 +28,12 @@ def streams_decompress(tier):
     mk('empty', b'')
     mk('2streams', [inputs.kind('N', 120000, 1), inputs.kind('Z', 5000)])
     mk('3blk+garbage', n3, tail=b'\x00garbage')
+    # one block followed by more tiny blocks than the queue of scanner-found,
+    # not yet confirmed blocks can hold (17W-3): the bound is only reached when
+    # the worker holding the in-order block is starved while the others run ahead
+    mk('1blk+36tiny', [inputs.kind('N', 60000)] + [b'tiny %d' % i for i in range(36)])
+    if tier != 'quick':
+        mk('1blk+53tiny', [inputs.kind('N', 60000)] + [b'tiny %d' % i for i in range(53)])
     if tier != 'quick':
         mk('4blk-runs', inputs.kind('E', 300000))
         mk('3streams', [inputs.kind('N', 120000, 2), b'', inputs.kind('F', 150000)])
@@ -59,6 +65,8 @@ def run(tier):
                 grans.append(({'LBZIP2_VERIF_IN_GRANUL': '8', 'LBZIP2_VERIF_OUT_GRANUL': '100000'}, 'in8/out100000'))
             for env, gname in grans:
                 if quick and W == 1 and gname != 'stock':
+                    continue
+                if 'tiny' in name and (gname != 'stock' or W == 1 or (W == 3) != ('53' in name)):
                     continue
                 cells.append(('decompress', ['-n%d' % W, '-d'], data, plain,
                               'stream=%s W=%d gran=%s' % (name, W, gname), {'setenv': env}))
@@ -95,15 +103,24 @@ def run(tier):
         e = expected[(leg, desc)]
         if e is not None:
             ex.add(leg, 'fast', args, data, sched.expect_exact(0, e, allow_inv=4 if leg == 'copy' else 0), desc, opts)
+    # every strict-priority scheduler (all orders of the cell's threads): the
+    # schedules that starve one thread for as long as possible
+    def nthreads(c):
+        if c.leg == 'copy':
+            return 3
+        return int(c.args[0][2:]) + 3          # main, reader, writer, W workers
+    ex.run_priorities(nthreads, cells=[c for c in ex.cells if nthreads(c) <= (5 if quick else 6)])
     # passes of increasing bound: every cell completes d before any starts d+1
     done = 0
     for d in range(1, maxd + 1):
         extra = {'spurious': 1} if (not quick and d >= 3) else None
-        if not ex.run_pass(d, extra_opts=extra):
+        sel = [c for c in ex.cells if not ('tiny' in c.desc and d > (1 if quick else 2))]
+        if not ex.run_pass(d, cells=sel, extra_opts=extra):
             break
         done = d
     chk.cov['bound_completed_all_cells'] = done
-    ex.finish_cov('every execution with <= d deviations (delay-bounded) from schedulers P0/P1/P2; '
+    ex.finish_cov('every execution under each strict-priority scheduler (all K! priority orders of the K threads of a cell) and '
+                  'every execution with <= d deviations (delay-bounded) from schedulers P0/P1/P2; '
                   'a state is the tuple (work_units,in_slots,out_slots,eof, per-thread progress) sampled at a '
                   'scheduling point; distinct_nontrivial counts distinct such states per cell, summed.')
     chk.assumptions += ['lbzip2 is data-race free, so scheduling only at synchronisation and I/O calls loses no behaviour (C12 checks this)',
